@@ -140,6 +140,12 @@ def run(chk):
         cut_shapes = G.ALL_SHAPES
     for sc in G.cut_scenarios(cut_shapes, steps_of, all_compositions_upto=0 if quick else 8):
         scen.append(('cut', sc))
+    # bytes that Python's text methods take for line ends or digits: greeting, one middle step, closing reply
+    for sc in G.cut_scenarios(G.EXTRA_SHAPES, lambda n: sorted({0, n // 2, n - 1}), all_compositions_upto=0):
+        if len(sc['cuts']) and (len(set(sc['cuts'][-2:])) > 1 or quick):
+            scen.append(('cut-odd', sc))
+    for sc in G.stall_scenarios():
+        scen.append(('stall', sc))
     for sc in G.torn_scenarios():
         scen.append(('torn', sc))
     for sc in G.long_line_scenarios():
@@ -194,7 +200,7 @@ def run(chk):
                + 'CONSTRAINT Record\nPOSTCONDITION Post\nCHECK_DEADLOCK FALSE\n')
     traces = [t for (_, _, t) in items]
     # the model has no line limit: over-long-line scenarios are monitored only
-    strict_idx = [i for i, (o, _, _) in enumerate(items) if o not in ('direct', 'cut-long')]
+    strict_idx = [i for i, (o, _, _) in enumerate(items) if o not in ('direct', 'cut-long', 'stall')]   # (no timers in the model)
     nchunks = 4 if quick else 6
     size = max(1, (len(traces) + nchunks - 1) // nchunks)
 
